@@ -48,7 +48,10 @@ import (
 	"github.com/yandex/pandora/core"
 	"github.com/yandex/pandora/core/aggregator"
 	"github.com/yandex/pandora/core/aggregator/netsample"
+	"github.com/yandex/pandora/core/config"
+	"github.com/yandex/pandora/core/datasink"
 	"github.com/yandex/pandora/core/engine"
+	coreimport "github.com/yandex/pandora/core/import"
 	"github.com/yandex/pandora/core/schedule"
 	"github.com/yandex/pandora/lib/monitoring"
 	"go.uber.org/zap"
@@ -72,8 +75,31 @@ type absSample struct {
 	Sec int    `json:"sec"`
 	Ms  int    `json:"ms"`
 	Tag string `json:"tag"`
-	ID  int    `json:"id"`
-	F   []int  `json:"f"`
+	// a tag with column / line delimiters travels as atoms: text pieces and "<TAB>" "<LF>" "<CR>" (spec/Phout.tla
+	// TagText says what the tag column must be; rawTag renders the real characters)
+	TagP []string `json:"tagp,omitempty"`
+	ID   int      `json:"id"`
+	F    []int    `json:"f"`
+}
+
+func (a absSample) rawTag() string {
+	if len(a.TagP) == 0 {
+		return a.Tag
+	}
+	var b strings.Builder
+	for _, p := range a.TagP {
+		switch p {
+		case "<TAB>":
+			b.WriteByte('\t')
+		case "<LF>":
+			b.WriteByte('\n')
+		case "<CR>":
+			b.WriteByte('\r')
+		default:
+			b.WriteString(p)
+		}
+	}
+	return b.String()
 }
 
 var fieldSetters = []func(s *netsample.Sample, v int){
@@ -100,7 +126,7 @@ func setPrivate(s *netsample.Sample, name string, v interface{}) {
 }
 
 func realSample(a absSample) *netsample.Sample {
-	s := netsample.Acquire(a.Tag)
+	s := netsample.Acquire(a.rawTag())
 	s.SetID(uint64(a.ID))
 	for k, set := range fieldSetters {
 		if set != nil {
@@ -173,13 +199,38 @@ type lineSink struct {
 	closed  bool
 	lines   int
 	parse   func(run int, line []byte) interface{}
+	// fault injection (runs with cfg.fault != ""): the failAt-th Write call and every later one fails like a
+	// full disk does - "err": nothing taken, error; "partial": half of the bytes taken, error; "short": half
+	// of the bytes taken and NO error (a short count); "close": writes succeed, Close returns an error
+	fault   string
+	failAt  int
+	nwrites int
+	failed  bool
 }
+
+var errSinkFull = errors.New("injected: no space left on device")
 
 func (s *lineSink) Write(p []byte) (int, error) {
 	s.mu.Lock()
 	defer s.mu.Unlock()
 	if s.closed {
 		s.w.Emit(map[string]interface{}{"ev": "WriteAfterClose", "run": s.run, "n": len(p)})
+	}
+	s.nwrites++
+	var werr error
+	total := len(p)
+	if s.fault != "" && s.fault != "close" && (s.failed || s.nwrites >= s.failAt) {
+		k := 0
+		if !s.failed && s.fault != "err" {
+			k = len(p) / 2
+		}
+		if s.fault != "short" || s.failed {
+			werr = errSinkFull
+		}
+		// logged BEFORE the call returns: the aggregator has not seen the failure yet
+		s.w.Emit(map[string]interface{}{"ev": "SinkFault", "run": s.run, "how": s.fault, "offered": total, "taken": k, "first": !s.failed})
+		s.failed = true
+		p = p[:k]
 	}
 	s.pending = append(s.pending, p...)
 	for {
@@ -191,14 +242,21 @@ func (s *lineSink) Write(p []byte) (int, error) {
 		s.lines++
 		s.pending = s.pending[k+1:]
 	}
-	return len(p), nil
+	return len(p), werr
 }
 
 func (s *lineSink) Close() error {
 	s.mu.Lock()
 	defer s.mu.Unlock()
 	s.closed = true
+	if s.fault == "close" {
+		s.w.Emit(map[string]interface{}{"ev": "SinkFault", "run": s.run, "how": "close", "offered": 0, "taken": 0, "first": true})
+		s.failed = true
+	}
 	s.w.Emit(map[string]interface{}{"ev": "SinkClosed", "run": s.run, "partial": len(s.pending)})
+	if s.fault == "close" {
+		return errSinkFull
+	}
 	return nil
 }
 
@@ -220,14 +278,14 @@ func parsePhout(run int, line []byte) interface{} {
 func parseJSONLine(run int, line []byte) interface{} {
 	dec := json.NewDecoder(bytes.NewReader(line))
 	dec.DisallowUnknownFields()
-	var a absSample
+	var a jsonSample
 	if err := dec.Decode(&a); err != nil || a.F == nil {
 		return map[string]interface{}{"ev": "BadLine", "run": run, "raw": string(line)}
 	}
 	if _, err := dec.Token(); err != io.EOF {
 		return map[string]interface{}{"ev": "BadLine", "run": run, "raw": string(line)}
 	}
-	return map[string]interface{}{"ev": "JLine", "run": run, "s": a}
+	return map[string]interface{}{"ev": "JLine", "run": run, "s": a.project()}
 }
 
 // recFs: an afero mem fs whose created files tee everything into a lineSink.
@@ -249,13 +307,18 @@ func (f *recFs) Create(name string) (afero.File, error) {
 	return &recFile{file, f.sink}, nil
 }
 func (f *recFile) Write(p []byte) (int, error) {
-	n, err := f.File.Write(p)
-	f.sink.Write(p[:n])
+	// the recording sink decides how much the "disk" takes (fault injection); the mem file keeps exactly that
+	n, err := f.sink.Write(p)
+	if _, ferr := f.File.Write(p[:n]); ferr != nil {
+		panic(ferr)
+	}
 	return n, err
 }
 func (f *recFile) Close() error {
 	err := f.File.Close()
-	f.sink.Close()
+	if serr := f.sink.Close(); serr != nil {
+		return serr
+	}
 	return err
 }
 
@@ -277,6 +340,15 @@ type aggRun struct {
 	via       string // "direct" | "engine"
 	mode      string // direct runs: "normal" | "late" | "burst"
 	failAfter int    // via "provfail": the provider fails when that many ammo were acquired
+	fault     string // "" | "err" | "partial" | "short" | "close": what the sink does from its failAt-th Write on
+	failAt    int
+	// how the aggregator is made: "ctor" = the package constructors; "factory" = config.Decode of
+	// `{result: {type: ...}}` through the plugin factories coreimport.Import registered (default config,
+	// option names, the sink string hook), in the map shape viper ("viper") or yaml.v2 ("yaml") produces
+	build    string
+	shape    string
+	typ      string // registered type name: phout | jsonlines | json | log | discard
+	sinkForm string // jsonlines: "buffer" (ctor only) | "file" ({type: file, path}) | "path" (a plain string) | "stdout" | "stderr"
 }
 
 // runAggregator captures the aggregator's own Run result (the engine may or may not forward it).
@@ -295,8 +367,249 @@ func (c *runCapture) Run(ctx context.Context, deps core.AggregatorDeps) error {
 // minimum, 4 KiB (spills after ~60 lines), 100 KB
 func (cfg aggRun) bufSize() int { return []int{4096, 0, 1, 100000, 4096}[cfg.run%5] }
 
+// ---------------------------------------------------------------- aggregators made by the registered factories
+
+// routeFs is the one afero.Fs the plugin factories are registered with (coreimport.Import): files under
+// /r<run>/ are mem files that tee into that run's recording sink.
+type routeFs struct {
+	afero.Fs
+	mu    sync.Mutex
+	sinks map[string]*lineSink
+}
+
+var factoryFs = &routeFs{Fs: afero.NewMemMapFs(), sinks: map[string]*lineSink{}}
+var aggImportOnce sync.Once
+
+func (f *routeFs) sinkOf(name string) *lineSink {
+	f.mu.Lock()
+	defer f.mu.Unlock()
+	parts := strings.SplitN(strings.TrimPrefix(name, "/"), "/", 2)
+	return f.sinks[parts[0]]
+}
+func (f *routeFs) Create(name string) (afero.File, error) {
+	file, err := f.Fs.Create(name)
+	if s := f.sinkOf(name); err == nil && s != nil {
+		s.w.Emit(map[string]interface{}{"ev": "Open", "run": s.run, "create": true, "trunc": true, "append": false})
+		return &recFile{file, s}, nil
+	}
+	return file, err
+}
+func (f *routeFs) OpenFile(name string, flag int, perm os.FileMode) (afero.File, error) {
+	file, err := f.Fs.OpenFile(name, flag, perm)
+	if s := f.sinkOf(name); err == nil && s != nil {
+		s.w.Emit(map[string]interface{}{"ev": "Open", "run": s.run, "create": flag&os.O_CREATE != 0, "trunc": flag&os.O_TRUNC != 0, "append": flag&os.O_APPEND != 0})
+		return &recFile{file, s}, nil
+	}
+	return file, err
+}
+
+func aggShape(v interface{}, shape string) interface{} {
+	switch x := v.(type) {
+	case map[string]interface{}:
+		if shape == "yaml" {
+			m := map[interface{}]interface{}{}
+			for k, e := range x {
+				m[k] = aggShape(e, shape)
+			}
+			return m
+		}
+		m := map[string]interface{}{}
+		for k, e := range x {
+			m[k] = aggShape(e, shape)
+		}
+		return m
+	}
+	return v
+}
+
+// std sinks: "stdout" / "stderr" resolve to os.Stdout / os.Stderr when the factory runs.  The driver points
+// that variable at a pipe for the time of the factory call (runs of this form are made one at a time).
+type stdCapture struct {
+	r, wr *os.File
+	done  chan struct{}
+}
+
+var stdMu sync.Mutex
+
+func factoryAggregator(cfg aggRun, w *vt.Writer, sink *lineSink) (core.Aggregator, func() (int, int), *stdCapture) {
+	aggImportOnce.Do(func() { coreimport.Import(factoryFs) })
+	dir := fmt.Sprintf("r%d", cfg.run)
+	factoryFs.mu.Lock()
+	factoryFs.sinks[dir] = sink
+	factoryFs.mu.Unlock()
+	path := "/" + dir + "/result.out"
+	// stale content: whatever made the file must truncate it
+	if err := afero.WriteFile(factoryFs.Fs, path, []byte("stale line of an earlier run\nand half a li"), 0644); err != nil {
+		panic(err)
+	}
+	res := map[string]interface{}{"type": cfg.typ}
+	var content func() (int, int)
+	var sc *stdCapture
+	fileContent := func() (int, int) {
+		b, err := afero.ReadFile(factoryFs.Fs, path)
+		if err != nil {
+			panic(err)
+		}
+		return bytes.Count(b, []byte{'\n'}), len(b) - (bytes.LastIndexByte(b, '\n') + 1)
+	}
+	bufOpt := func() {
+		// the option as a config file gives it: a number, or a string with a unit
+		switch b := cfg.bufSize(); {
+		case b == 0: // absent: the registered default config applies
+		case cfg.run%2 == 0:
+			res["buffer-size"] = b
+		case b == 4096:
+			res["buffer-size"] = "4kb"
+		default:
+			res["buffer-size"] = strconv.Itoa(b)
+		}
+	}
+	switch cfg.kind {
+	case "phout":
+		sink.parse = parsePhout
+		res["destination"] = path
+		res["id"] = cfg.ids
+		res["sample-queue-size"] = cfg.q
+		if cfg.run%3 == 0 {
+			res["flush-time"] = fmt.Sprintf("%dms", cfg.flushMs)
+		}
+		bufOpt()
+		content = fileContent
+	case "jsonlines":
+		sink.parse = parseJSONLine
+		switch cfg.sinkForm {
+		case "file":
+			res["sink"] = map[string]interface{}{"type": "file", "path": path}
+			content = fileContent
+		case "path":
+			res["sink"] = path // the sink string hook: any string that is no registered name is a file path
+			content = fileContent
+		default:
+			res["sink"] = cfg.sinkForm // "stdout" | "stderr"
+		}
+		res["sample-queue-size"] = cfg.q
+		switch {
+		case cfg.run%7 == 0:
+			res["flush-interval"] = 0 // option bound: no ticker at all
+		case cfg.run%7 == 1:
+			res["flush-interval"] = "1h" // option bound: the ticker never fires within the run
+		default:
+			res["flush-interval"] = fmt.Sprintf("%dms", cfg.flushMs)
+		}
+		bufOpt()
+		if cfg.run%4 == 0 {
+			res["sort-map-keys"] = true
+			res["marshal-float-with-6-digits"] = true
+		}
+	}
+	var holder struct {
+		Result core.Aggregator
+	}
+	decode := func() {
+		if err := config.DecodeAndValidate(aggShape(map[string]interface{}{"result": res}, cfg.shape), &holder); err != nil || holder.Result == nil {
+			panic(fmt.Sprintf("run %d: the registered %s factory rejected %v: %v", cfg.run, cfg.typ, res, err))
+		}
+	}
+	if cfg.sinkForm == "stdout" || cfg.sinkForm == "stderr" {
+		r, wr, err := os.Pipe()
+		if err != nil {
+			panic(err)
+		}
+		sc = &stdCapture{r: r, wr: wr, done: make(chan struct{})}
+		stdMu.Lock()
+		if cfg.sinkForm == "stdout" {
+			old := os.Stdout
+			os.Stdout = wr
+			decode()
+			os.Stdout = old
+		} else {
+			old := os.Stderr
+			os.Stderr = wr
+			decode()
+			os.Stderr = old
+		}
+		stdMu.Unlock()
+		go func() {
+			defer close(sc.done)
+			buf := make([]byte, 32768)
+			for {
+				n, err := r.Read(buf)
+				if n > 0 {
+					sink.Write(buf[:n])
+				}
+				if err != nil {
+					return
+				}
+			}
+		}()
+	} else {
+		decode()
+	}
+	return holder.Result, content, sc
+}
+
+// drain: Run has returned; what it has not handed to the standard stream by now never arrives
+func (sc *stdCapture) drain(sink *lineSink) {
+	sc.wr.Close()
+	<-sc.done
+	sc.r.Close()
+	sink.mu.Lock()
+	defer sink.mu.Unlock()
+	sink.w.Emit(map[string]interface{}{"ev": "StdDrained", "run": sink.run, "partial": len(sink.pending)})
+}
+
 func buildAggregator(cfg aggRun, w *vt.Writer) (core.Aggregator, func() (int, int)) {
-	sink := &lineSink{run: cfg.run, w: w}
+	a, content, _ := buildAggregator2(cfg, w)
+	return a, content
+}
+
+func buildAggregator2(cfg aggRun, w *vt.Writer) (core.Aggregator, func() (int, int), func()) {
+	sink := &lineSink{run: cfg.run, w: w, fault: cfg.fault, failAt: cfg.failAt}
+	if cfg.build == "factory" {
+		a, content, sc := factoryAggregator(cfg, w, sink)
+		if sc != nil {
+			return a, content, func() { sc.drain(sink) }
+		}
+		return a, content, nil
+	}
+	if cfg.kind == "test" {
+		// aggregator.NewTest keeps every sample in memory (GetSamples); its content is read when Run has returned
+		t := aggregator.NewTest()
+		sink.parse = parseJSONLine
+		return t, nil, func() {
+			for _, smp := range t.GetSamples() {
+				b, err := json.Marshal(smp)
+				if err != nil {
+					panic(err)
+				}
+				sink.Write(append(b, '\n'))
+			}
+			sink.mu.Lock()
+			defer sink.mu.Unlock()
+			sink.w.Emit(map[string]interface{}{"ev": "StdDrained", "run": sink.run, "partial": len(sink.pending)})
+		}
+	}
+	if cfg.kind == "jsonlines" && cfg.sinkForm == "membuffer" {
+		// the repository's in-memory data sink (datasink.NewBuffer): read when Run has returned
+		buf := datasink.NewBuffer()
+		sink.parse = parseJSONLine
+		conf := aggregator.DefaultJSONLinesAggregatorConfig()
+		conf.Sink = buf
+		conf.FlushInterval = time.Duration(cfg.flushMs) * time.Millisecond
+		conf.ReporterConfig.SampleQueueSize = cfg.q
+		conf.JSONLineEncoderConfig.BufferSizeConfig.BufferSize = datasize.ByteSize(cfg.bufSize())
+		return aggregator.NewJSONLinesAggregator(conf), nil, func() {
+			sink.Write(buf.Bytes())
+			sink.mu.Lock()
+			defer sink.mu.Unlock()
+			sink.w.Emit(map[string]interface{}{"ev": "StdDrained", "run": sink.run, "partial": len(sink.pending)})
+		}
+	}
+	a, content := ctorAggregator(cfg, w, sink)
+	return a, content, nil
+}
+
+func ctorAggregator(cfg aggRun, w *vt.Writer, sink *lineSink) (core.Aggregator, func() (int, int)) {
 	switch cfg.kind {
 	case "phout":
 		sink.parse = parsePhout
@@ -375,19 +688,108 @@ func (c logCore) Write(e zapcore.Entry, _ []zapcore.Field) error {
 }
 func (c logCore) Sync() error { return nil }
 
-func (cfg aggRun) sample(r *rand.Rand, g, i int) (absSample, core.Sample) {
+// jsonSample: what is reported to the jsonlines (and the in-memory test) aggregator: the abstract sample plus, in one
+// of three reports, values of every JSON kind - a map (key order: sort-map-keys), a float (marshal-float-with-6-digits:
+// the values are exact in six decimals), a bool, nested arrays / an empty object, bytes (base64), a 64-bit number, a
+// nil / non-nil pointer.  jsonSampleEv is its projection for the trace: numbers that do not fit a TLC integer and
+// floats travel as text.
+type jsonNest struct {
+	K []string `json:"k"`
+	E struct{} `json:"e"`
+}
+type jsonExtra struct {
+	M    map[string]int `json:"m"`
+	Fl   float64        `json:"fl"`
+	Ok   bool           `json:"ok"`
+	Nest jsonNest       `json:"nest"`
+	B    []byte         `json:"b"`
+	U    uint64         `json:"u"`
+	P    *int           `json:"p"`
+}
+type jsonSample struct {
+	absSample
+	X *jsonExtra `json:"x,omitempty"`
+}
+type jsonExtraEv struct {
+	M  map[string]int `json:"m"`
+	Fl string         `json:"fl"`
+	Ok bool           `json:"ok"`
+	K  []string       `json:"k"`
+	B  string         `json:"b"`
+	U  string         `json:"u"`
+	P  string         `json:"p"`
+}
+type jsonSampleEv struct {
+	absSample
+	X *jsonExtraEv `json:"x,omitempty"`
+}
+
+func (js jsonSample) project() jsonSampleEv {
+	ev := jsonSampleEv{absSample: js.absSample}
+	if js.X != nil {
+		x := js.X
+		p := "nil"
+		if x.P != nil {
+			p = strconv.Itoa(*x.P)
+		}
+		m := x.M
+		if m == nil {
+			m = map[string]int{}
+		}
+		k := x.Nest.K
+		if k == nil {
+			k = []string{}
+		}
+		ev.X = &jsonExtraEv{M: m, Fl: strconv.FormatFloat(x.Fl, 'g', -1, 64), Ok: x.Ok, K: k,
+			B: fmt.Sprintf("%x", x.B), U: strconv.FormatUint(x.U, 10), P: p}
+	}
+	return ev
+}
+
+func genExtra(r *rand.Rand) *jsonExtra {
+	x := &jsonExtra{M: map[string]int{}}
+	keys := []string{"b", "a", "key with blank", "\"q\"", "ü", "z\n", "0"}
+	for n := r.Intn(4); n > 0; n-- {
+		x.M[keys[r.Intn(len(keys))]] = r.Intn(2000) - 1000
+	}
+	x.Fl = []float64{0, 0.5, -1.25, 3.125, 123456.5, 0.015625, -0.000001, 42}[r.Intn(8)]
+	x.Ok = r.Intn(2) == 0
+	x.Nest.K = []string{}
+	for n := r.Intn(3); n > 0; n-- {
+		x.Nest.K = append(x.Nest.K, []string{"", "x", "two\nlines", "tab\there", "]", "\u2029"}[r.Intn(6)])
+	}
+	x.B = make([]byte, r.Intn(5))
+	r.Read(x.B)
+	x.U = []uint64{0, 1, 1 << 53, math.MaxUint64, 4294967296}[r.Intn(5)]
+	if r.Intn(2) == 0 {
+		v := r.Intn(100) - 50
+		x.P = &v
+	}
+	return x
+}
+
+func (cfg aggRun) sample(r *rand.Rand, g, i int) (interface{}, core.Sample) {
 	a := genSample(r, g, i)
 	if cfg.kind == "log" || cfg.kind == "discard" {
 		return a, &tokSample{G: g, I: i, returned: tokCounter(cfg.run)}
 	}
 	if cfg.kind == "phout" {
+		// what an ammo file can carry: a TAB inside a uri / uripost / raw tag, any of TAB, LF, CR in a JSON ammo tag
+		if r.Intn(8) == 0 {
+			a.TagP = [][]string{{a.Tag, "<TAB>", "x"}, {"<TAB>"}, {"a", "<LF>", "b"}, {a.Tag, "<CR>", "<LF>"}, {"<LF>"}, {"k", "<CR>"}}[r.Intn(6)]
+			a.Tag = ""
+		}
 		return a, realSample(a)
 	}
 	// jsonlines must stay one value per line whatever the strings contain
 	if r.Intn(6) == 0 {
 		a.Tag += []string{"\n", "\t", "line1\nline2", "\"", "\\", "\r\n", "\u2028", "}{", "<&>"}[r.Intn(9)]
 	}
-	return a, a
+	js := jsonSample{absSample: a}
+	if r.Intn(3) == 0 {
+		js.X = genExtra(r)
+	}
+	return js.project(), js
 }
 
 func emitRunEnd(w *vt.Writer, cfg aggRun, err error, timeout bool) {
@@ -409,8 +811,9 @@ func emitRunEnd(w *vt.Writer, cfg aggRun, err error, timeout bool) {
 
 func runDirect(cfg aggRun, w *vt.Writer, seed int64) {
 	w.Emit(map[string]interface{}{"ev": "Run", "run": cfg.run, "kind": cfg.kind, "ids": cfg.ids, "k": cfg.k,
-		"q": cfg.q, "flush_ms": cfg.flushMs, "via": cfg.via, "mode": cfg.mode})
-	a, content := buildAggregator(cfg, w)
+		"q": cfg.q, "flush_ms": cfg.flushMs, "via": cfg.via, "mode": cfg.mode, "fault": cfg.fault, "fail_at": cfg.failAt,
+		"build": cfg.build, "shape": cfg.shape, "type": cfg.typ, "sink": cfg.sinkForm})
+	a, content, drain := buildAggregator2(cfg, w)
 	ctx, cancel := context.WithCancel(context.Background())
 	defer cancel()
 	done := make(chan error, 1)
@@ -494,6 +897,9 @@ func runDirect(cfg aggRun, w *vt.Writer, seed int64) {
 	}
 	select {
 	case err := <-done:
+		if drain != nil {
+			drain() // standard stream: everything Run handed over before it returned, then "StdDrained"
+		}
 		emitRunEnd(w, cfg, err, false)
 	case <-time.After(60 * time.Second):
 		emitRunEnd(w, cfg, nil, true)
@@ -597,7 +1003,8 @@ func (cfg aggRun) schedEnd() bool {
 
 func runEngine(cfg aggRun, w *vt.Writer, seed int64) {
 	w.Emit(map[string]interface{}{"ev": "Run", "run": cfg.run, "kind": cfg.kind, "ids": cfg.ids, "k": cfg.k,
-		"q": cfg.q, "flush_ms": cfg.flushMs, "via": cfg.via, "mode": cfg.via})
+		"q": cfg.q, "flush_ms": cfg.flushMs, "via": cfg.via, "mode": cfg.via, "fault": "", "fail_at": 0,
+		"build": cfg.build, "shape": cfg.shape, "type": cfg.typ, "sink": cfg.sinkForm})
 	a, content := buildAggregator(cfg, w)
 	rc := &runCapture{a, make(chan error, 1)}
 	total := 0
@@ -711,6 +1118,7 @@ func aggMain(args []string) {
 	provRuns := fs.Int("provfail", 0, "engine runs whose provider fails mid-run")
 	otherRuns := fs.Int("other", 0, "direct runs of the log and discard aggregators")
 	stagedRuns := fs.Int("staged", 0, "engine runs whose staged start-up is unfinished at out-of-ammo / schedule end")
+	faultRuns := fs.Int("fault", 0, "direct runs whose sink fails (write error, partial write, short count, close error)")
 	par := fs.Int("par", 4, "runs in flight")
 	fs.Parse(args)
 	seed := aggSeed()
@@ -722,13 +1130,15 @@ func aggMain(args []string) {
 	qs := []int{1, 1, 2, 3, 4, 8, 16, 64}
 	flushes := []int{1, 1, 2, 5, 20, 100, 1000}
 	var cfgs []aggRun
-	for n := 0; n < *runs+*engRuns+*cancelRuns+*stressRuns+*provRuns+*otherRuns+*stagedRuns; n++ {
+	nofault := *runs + *engRuns + *cancelRuns + *stressRuns + *provRuns + *otherRuns + *stagedRuns
+	for n := 0; n < nofault+*faultRuns; n++ {
 		cfg := aggRun{run: n + 1, via: "direct"}
-		staged := n >= *runs+*engRuns+*cancelRuns+*stressRuns+*provRuns+*otherRuns
-		other := n >= *runs+*engRuns+*cancelRuns+*stressRuns+*provRuns && !staged
+		faulty := n >= nofault
+		staged := n >= *runs+*engRuns+*cancelRuns+*stressRuns+*provRuns+*otherRuns && !faulty
+		other := n >= *runs+*engRuns+*cancelRuns+*stressRuns+*provRuns && !staged && !faulty
 		if staged {
 			cfg.via = "staged"
-		} else if other {
+		} else if other || faulty {
 			cfg.via = "direct"
 		} else if n >= *runs+*engRuns+*cancelRuns+*stressRuns {
 			cfg.via = "provfail"
@@ -790,17 +1200,19 @@ func aggMain(args []string) {
 				}
 			}
 		}
-		if n >= *runs+*engRuns+*cancelRuns && cfg.via == "direct" && !other {
+		if n >= *runs+*engRuns+*cancelRuns && cfg.via == "direct" && !other && !faulty {
 			cfg.mode, cfg.kind, cfg.k, cfg.q = "dropstress", "jsonlines", 8, 1+r.Intn(2)
 			cfg.per = nil
 			for g := 0; g < cfg.k; g++ {
-				cfg.per = append(cfg.per, 3000+r.Intn(2000))
+				// long enough (milliseconds) that the goroutines really overlap after the gate opens: with a few
+				// thousand reports each one was often finished before the next was scheduled on a quiet machine
+				cfg.per = append(cfg.per, 40000+r.Intn(20000))
 			}
 		}
 		if other {
 			// log: blocking queue of 128, written through to the logger; discard: nothing at all.
 			// late mode = every report is made before Run starts: discard must not block, log has room for 128
-			cfg.kind = []string{"log", "discard"}[n%2]
+			cfg.kind = []string{"log", "discard", "log", "discard", "test", "test"}[n%6]
 			cfg.mode = []string{"normal", "late", "burst"}[r.Intn(3)]
 			cfg.q = 128
 			room := 128
@@ -838,6 +1250,23 @@ func aggMain(args []string) {
 				cfg.q = total + 1
 			}
 		}
+		if faulty {
+			// the sink fails at its failAt-th Write (1 = the very first byte that leaves the buffer; for a small run
+			// that is the FINAL flush) or at Close.  Run may return early: a blocking Report must find room.
+			cfg.fault = []string{"err", "partial", "short", "close", "err", "partial"}[n%6]
+			cfg.failAt = 1 + []int{0, 0, 1, 2, 5}[r.Intn(5)]
+			if cfg.kind == "phout" {
+				cfg.q = 4096
+			}
+			if cfg.mode == "burst" || r.Intn(3) == 0 {
+				for g := range cfg.per {
+					cfg.per[g] = 20 + r.Intn(40) // several spills of the 4 KiB buffer
+				}
+			}
+			if cfg.mode == "late" && cfg.kind == "phout" {
+				cfg.mode = "normal"
+			}
+		}
 		if cfg.via == "cancel" || cfg.via == "provfail" {
 			// a blocking Report after the aggregator has returned must find room (default queue: 256 K)
 			if cfg.kind == "phout" {
@@ -845,6 +1274,29 @@ func aggMain(args []string) {
 			}
 			cfg.delayUs = 200 + r.Intn(6000)
 			cfg.failAfter = 1 + r.Intn(150)
+		}
+		// how the aggregator is made (no seeded choice is consumed: earlier runs keep their parameters)
+		cfg.build, cfg.shape, cfg.typ, cfg.sinkForm = "ctor", "", cfg.kind, ""
+		if cfg.kind == "jsonlines" {
+			cfg.sinkForm = "buffer"
+			if n%4 == 2 && cfg.via == "direct" && cfg.fault == "" && cfg.mode != "dropstress" {
+				cfg.sinkForm = "membuffer"
+			}
+		}
+		useFactory := n%2 == 1
+		if other {
+			useFactory = (n/2)%2 == 1 // kind alternates with n there
+		}
+		if useFactory && cfg.mode != "dropstress" && cfg.kind != "test" {
+			cfg.build = "factory"
+			cfg.shape = []string{"viper", "yaml"}[(n/2+n/12)%2]
+			if cfg.kind == "jsonlines" {
+				cfg.typ = []string{"jsonlines", "json"}[(n/4)%2]
+				cfg.sinkForm = []string{"file", "path", "stdout", "file", "path", "stderr"}[(n/2)%6]
+				if (cfg.via != "direct" || cfg.fault != "") && (cfg.sinkForm == "stdout" || cfg.sinkForm == "stderr") {
+					cfg.sinkForm = "file"
+				}
+			}
 		}
 		cfgs = append(cfgs, cfg)
 	}
